@@ -216,12 +216,14 @@ pub struct ArrayValue {
 impl ArrayValue {
     fn slice(&mut self, left: Option<usize>, right: Option<usize>) {
         if let Some(items) = self.items.as_mut() {
+            // the bounds come from the user: a left bound behind the end leaves nothing,
+            // a right bound before the left one an empty slice
             if let Some(left) = left {
-                items.drain(..left);
+                items.drain(..left.min(items.len()));
             }
 
             if let Some(right) = right {
-                let remove_range = right - left.unwrap_or_default()..;
+                let remove_range = right.saturating_sub(left.unwrap_or_default())..;
                 if remove_range.start < items.len() {
                     items.drain(remove_range);
                 };
@@ -305,11 +307,13 @@ impl PointerValue {
 
         self.value.and_then(|ptr| {
             let left = left.unwrap_or_default();
-            let base_addr = ptr as usize + deref_size * left;
+            // user supplied bounds: no result for a reversed or overflowing range
+            let count = right.checked_sub(left)?;
+            let base_addr = (ptr as usize).checked_add(deref_size.checked_mul(left)?)?;
             let raw_data = weak_error!(debugger::read_memory_by_pid(
                 pcx.evcx.ecx.pid_on_focus(),
                 base_addr,
-                deref_size * (right - left)
+                deref_size.checked_mul(count)?
             ))?;
             let raw_data = bytes::Bytes::from(raw_data);
 
